@@ -221,3 +221,28 @@ def c17_codec(stream, res, impl):
             if okv.get("received") != str(n) or okv.get("intact") != str(n) or okv.get("order") != "ok":
                 return "websocket %s run with %s writers x %s messages: %s" % (kv.get("lib"), kv["writers"], kv["each"], out)
     return None
+
+
+def c18_agent(stream, res, impl):
+    """a failed keep-alive makes no node call; non-strict rounds drop exactly the pool's invalid peers"""
+    if stream["component"] != "agent":
+        return None
+    strict = False
+    for op, out in zip(res, impl):
+        t = op.split()
+        if len(t) < 2:
+            continue
+        kv = _kv(op)
+        if t[1] == "setup":
+            strict = kv.get("strict") == "1"
+        if t[1] == "round":
+            okv = _kv(out)
+            calls = [c for c in okv.get("calls", "").split(",") if c]
+            if kv.get("update") != "ok" and (calls or okv.get("peer") != "none"):
+                return "failed keep-alive but the agent acted on the node: %s" % out[:200]
+            if kv.get("update") == "ok" and not strict:
+                invalid = [x if x != "~" else "" for x in kv.get("I", "").split(";") if x]
+                dropped = [c[3:] for c in calls if c.startswith("rm:")]
+                if sorted(set(dropped)) != sorted(set(invalid)):
+                    return "non-strict round un-trusted %s, the pool declared %s invalid" % (sorted(set(dropped)), sorted(set(invalid)))
+    return None
